@@ -20,6 +20,8 @@ def repo_on_path():
         lg.addHandler(logging.NullHandler())
     lg.propagate = False
     ql = logging.getLogger("waitress.queue")
+    if not any(isinstance(h, logging.NullHandler) for h in ql.handlers):
+        ql.addHandler(logging.NullHandler())
     ql.propagate = False
     import warnings
     warnings.simplefilter("ignore")
